@@ -24,7 +24,7 @@ import (
 type tBatch struct {
 	Proposer int     `json:"proposer"`
 	Tasks    []sTask `json:"tasks"`
-	Silent   []int   `json:"silent"` // participants whose operators never answer this batch
+	Silent   []int   `json:"silent"`  // participants whose operators never answer this batch
 	Failing  []int   `json:"failing"` // participants who report a signing error instead of answering
 	Slow     []int   `json:"slow"`    // participants who answer only after a later batch has been proposed (or, for the last batch, at the very end)
 }
@@ -187,8 +187,8 @@ func runSignTape(fx *world.Fixture, p tPlan, root string, stepCheck bool) *tObs 
 	}
 
 	type act struct {
-		kind    string
-		i, b    int
+		kind string
+		i, b int
 	}
 	drain := false
 	enabled := func() []act {
